@@ -193,7 +193,36 @@ def run(eng, ctx):
     SH.receiver_reports_close(eng, ctx, "C11.D4")
     # recursion
     comps = [c for c in eng.res.sccs(reach) if len(c) > 1 or any(x in eng.res.callees(x) for x in c)]
-    ctx.check(len(comps) == 1 and comps[0] == set(eng.decoder_cycle), "C04.D3", "call graph", "recursion cycles", expected="only the decoder cycle (depth bounded by the definitions' nesting)", found=str([sorted(c) for c in comps])[:160], file="src/pyrtcm", line=0)
+    # besides the decoder cycle, a function may recurse on a strict part of one of its parameters (structural recursion over the finite literal
+    # definitions: `for k, d in gdict.items(): ... self.f(d[1])`); anything else is an unbounded recursion
+    extra = [c for c in comps if c != set(eng.decoder_cycle)]
+    unbounded = []
+    for c in extra:
+        okc = len(c) == 1
+        if okc:
+            q1 = next(iter(c))
+            f1 = eng.repo.func(q1)
+            se1 = eng.symeval(q1)
+            rc = [e for e in se1.effects if e.kind == "call" and ((e.term[2][0] == "attr" and e.term[2][1] == ("self",) and e.term[2][2] == f1.name) or e.term[2] == ("func", q1))]
+            params = {("param", p_) for p_ in f1.params}
+
+            def part_of_param(t, depth=0):
+                if t in params:
+                    return depth > 0
+                if t[0] in ("proj", "idx") and isinstance(t[1], tuple):
+                    return part_of_param(t[1], depth + 1)
+                if t[0] == "elem" and isinstance(t[1], tuple):
+                    return part_of_param(t[1], depth + 1)
+                if t[0] == "call" and t[2][0] == "attr" and t[2][2] in ("items", "values") and not t[3]:
+                    return part_of_param(t[2][1], depth)
+                return False
+
+            okc = bool(rc) and all(any(part_of_param(a) for a in e.term[3]) for e in rc)
+        if not okc:
+            unbounded.append(sorted(c))
+        else:
+            ctx.ok("C04.D3", next(iter(c)), "structural recursion", found="every recursive call passes a strict part of a parameter (depth bounded by the nesting of the literal definitions)", file="src/pyrtcm", line=0)
+    ctx.check(set(eng.decoder_cycle) in [set(c) for c in comps] and not unbounded, "C04.D3", "call graph", "recursion cycles", expected="only the decoder cycle and structural recursions (depth bounded by the definitions' nesting)", found=str(unbounded or [sorted(c) for c in comps])[:160], file="src/pyrtcm", line=0)
     T = eng.tables
     maxdepth = max((o.depth for _, ident, d, _ in T.definitions() for o in T.walk(ident, d)), default=0)
     ctx.check(maxdepth <= 4, "C04.D3", "definition tables", "nesting depth of the literal definitions", expected="small constant", found=str(maxdepth), file="src/pyrtcm", line=0)
